@@ -99,30 +99,33 @@ func (s *abSide) async(f func()) {
 }
 
 type abConn struct {
-	id         int
-	port       uint16     // client port
-	s          [2]*abSide // 0 = client (node A), 1 = server side (node B), nil until accepted
-	connected  bool
-	connErr    *tcpip.Error
-	startedAt  time.Duration // when the client called Connect
-	phantoms   int           // further connections the listener handed out for this client port (finding F11)
-	unclean    bool          // an application closed a side while data was still owed in either direction: errors may be legitimate
-	started    bool
-	iss        [2]uint32
-	haveISS    [2]bool
-	maxEnd     [2]uint32
-	haveMax    [2]bool
-	nxt        [2]uint32 // highest sequence number sent (+SYN/FIN), i.e. SND.NXT as seen on the wire
-	haveNxt    [2]bool
-	rstSent    [2]int // resets emitted by this side
-	rstStale   [2]int // ... whose sequence number was below SND.NXT
-	rstLost    [2]int // ... dropped by the wire
-	rstDeliv   [2]int
-	lastWin    [2]int   // window field of the last segment delivered TO this side (-1 none)
-	sentWin    [2]int   // window field of the last non-RST segment emitted BY this side (-1 none)
-	lateAck    uint32   // seq of the last bare ACK delivered to B before the app accepted, minus (client ISS+1)
-	lateAcks   []uint32 // ... of every distinct one
-	winDropped [2]bool  // the last window-bearing segment sent to this side was dropped
+	id                  int
+	port                uint16     // client port
+	s                   [2]*abSide // 0 = client (node A), 1 = server side (node B), nil until accepted
+	connected           bool
+	connErr             *tcpip.Error
+	startedAt           time.Duration // when the client called Connect
+	clientAcksDelivered int           // segments of the client other than its SYN that reached the passive side
+	clientAcksTried     int           // ... that the client sent (whether or not the device or the wire let them through)
+	synAcksDelivered    int           // SYN-ACKs that reached the client (each one is owed an ACK)
+	phantoms            int           // further connections the listener handed out for this client port (finding F11)
+	unclean             bool          // an application closed a side while data was still owed in either direction: errors may be legitimate
+	started             bool
+	iss                 [2]uint32
+	haveISS             [2]bool
+	maxEnd              [2]uint32
+	haveMax             [2]bool
+	nxt                 [2]uint32 // highest sequence number sent (+SYN/FIN), i.e. SND.NXT as seen on the wire
+	haveNxt             [2]bool
+	rstSent             [2]int // resets emitted by this side
+	rstStale            [2]int // ... whose sequence number was below SND.NXT
+	rstLost             [2]int // ... dropped by the wire
+	rstDeliv            [2]int
+	lastWin             [2]int   // window field of the last segment delivered TO this side (-1 none)
+	sentWin             [2]int   // window field of the last non-RST segment emitted BY this side (-1 none)
+	lateAck             uint32   // seq of the last bare ACK delivered to B before the app accepted, minus (client ISS+1)
+	lateAcks            []uint32 // ... of every distinct one
+	winDropped          [2]bool  // the last window-bearing segment sent to this side was dropped
 }
 
 type ABWorld struct {
@@ -328,6 +331,9 @@ func (w *ABWorld) onEmit(f *Frame) {
 			w.PlacementMissed = true
 			w.Probes["iss_placement_missed"]++
 		}
+	}
+	if side == 0 && seg.Flags&0x10 != 0 && seg.Flags&0x06 == 0 {
+		c.clientAcksTried++
 	}
 	if seg.Flags&0x04 != 0 {
 		c.rstSent[side]++
@@ -1034,6 +1040,13 @@ func (w *ABWorld) Final(bound time.Duration) {
 				w.Probes["client_still_waiting_for_the_server"]++
 				continue
 			}
+			if c.s[1] == nil && c.s[0] != nil && c.clientAcksDelivered == 0 && c.clientAcksTried >= c.synAcksDelivered && c.s[0].accepted == 0 && !c.s[0].shutW && !c.s[0].closed {
+				// the client answered every SYN-ACK that reached it, every one of those answers was lost, the passive side gave
+				// up (it has no socket to report that to), and the client - connected as far as it can know - has
+				// neither data nor a FIN outstanding: a half-open connection, quiet by right
+				w.Probes["half_open_after_every_handshake_ack_was_lost"]++
+				continue
+			}
 			// not done within the bound: is it permanently quiet?
 			w.ClearEmitted()
 			w.Advance(3 * time.Hour)
@@ -1209,7 +1222,13 @@ func (w *ABWorld) onDeliver(f *Frame) {
 		c.rstDeliv[side]++
 		return
 	}
+	if side == 1 && seg.Flags&0x12 == 0x12 {
+		c.synAcksDelivered++
+	}
 	if seg.Flags&0x10 != 0 && seg.Flags&0x02 == 0 {
+		if side == 0 {
+			c.clientAcksDelivered++
+		}
 		c.lastWin[to] = int(seg.Window)
 		c.winDropped[to] = false
 	}
